@@ -1,7 +1,534 @@
 /- helper lemmas for transaction blocks (C06) -/
 import DC.Proofs.Inv
+import DC.Proofs.Files
 import DC.Model.Run
 
 namespace DC.Cache
+
+/-- `Blk a x`: `x` is reached from `a` inside an open block (`a.depth > 0`) by steps that keep
+the nesting depth and the snapshot, remove no file, never decrease the allocation counter and
+register only freshly allocated files in `created`. -/
+structure Blk (a x : Cache) : Prop where
+  pos : 0 < a.depth
+  depth : x.depth = a.depth
+  snap : x.snap = a.snap
+  files : ∀ p ∈ a.files, p ∈ x.files
+  nfile : a.nfile ≤ x.nfile
+  created : ∀ f ∈ x.created, f ∈ a.created ∨ a.nfile ≤ f
+
+theorem Blk.refl {s : Cache} (h : 0 < s.depth) : Blk s s :=
+  ⟨h, rfl, rfl, fun _ h => h, Nat.le_refl _, fun _ h => .inl h⟩
+
+theorem Blk.pos' {a x : Cache} (h : Blk a x) : 0 < x.depth := by
+  rw [h.depth]; exact h.pos
+
+theorem Blk.trans {a x y : Cache} (h : Blk a x) (h2 : Blk x y) : Blk a y := by
+  refine ⟨h.pos, h2.depth.trans h.depth, h2.snap.trans h.snap,
+    fun p hp => h2.files p (h.files p hp), Nat.le_trans h.nfile h2.nfile, ?_⟩
+  intro f hf
+  rcases h2.created f hf with h3 | h3
+  · exact h.created f h3
+  · exact .inr (Nat.le_trans h.nfile h3)
+
+/-- a step that keeps the five fields -/
+theorem Blk.same {a x y : Cache} (h : Blk a x) (hd : y.depth = x.depth) (hs : y.snap = x.snap)
+    (hf : y.files = x.files) (hn : y.nfile = x.nfile) (hc : y.created = x.created) : Blk a y := by
+  refine ⟨h.pos, hd.trans h.depth, hs.trans h.snap, ?_, ?_, ?_⟩
+  · rw [hf]; exact h.files
+  · rw [hn]; exact h.nfile
+  · rw [hc]; exact h.created
+
+/-- a step that only changes the rows (and fields outside `core`) -/
+theorem Blk.core {a x y : Cache} (h : Blk a x) (R : List Row)
+    (hc : core y = { core x with rows := R }) : Blk a y := by
+  simp only [DC.Cache.core, Core.mk.injEq] at hc
+  obtain ⟨-, hf, hn, hd, hs, -, hcr, -, -⟩ := hc
+  exact h.same hd hs hf hn hcr
+
+theorem Blk.core' {a x y : Cache} (h : Blk a x) (hc : DC.Cache.core y = DC.Cache.core x) : Blk a y :=
+  h.core x.rows (by rw [hc]; rfl)
+
+/-! ### statement functions -/
+
+theorem Blk.log {a x : Cache} (h : Blk a x) (act : Act) : Blk a (x.log act) :=
+  h.same rfl rfl rfl rfl rfl
+
+theorem Blk.logSql {a x : Cache} (h : Blk a x) (id : String) : Blk a (x.logSql id) :=
+  h.same rfl rfl rfl rfl rfl
+
+theorem Blk.setMisses {a x : Cache} (h : Blk a x) (m : Int) : Blk a { x with misses := m } :=
+  h.same rfl rfl rfl rfl rfl
+
+theorem Blk.setHits {a x : Cache} (h : Blk a x) (m : Int) : Blk a { x with hits := m } :=
+  h.same rfl rfl rfl rfl rfl
+
+theorem Blk.fwrite {a x : Cache} (h : Blk a x) (c : Content) :
+    Blk a (x.fwrite c).1 ∧ a.nfile ≤ (x.fwrite c).2 := by
+  refine ⟨⟨h.pos, h.depth, h.snap, ?_, ?_, h.created⟩, h.nfile⟩
+  · intro p hp
+    show p ∈ x.files ++ [(x.nfile, c)]
+    exact List.mem_append_left _ (h.files p hp)
+  · show a.nfile ≤ x.nfile + 1
+    exact Nat.le_succ_of_le h.nfile
+
+theorem Blk.store {a x x' : Cache} {E : Externals} {v : PyVal} {read : Bool} {c : Cols}
+    (h : Blk a x) (hst : x.store E v read = .ok (x', c)) :
+    Blk a x' ∧ ∀ f, c.file = some f → a.nfile ≤ f := by
+  unfold DC.Cache.store at hst
+  split at hst
+  · cases hst
+  · cases hst
+    exact ⟨h, by intro f hf; cases hf⟩
+  · rename_i mode ct _
+    simp only [Except.ok.injEq, Prod.mk.injEq] at hst
+    obtain ⟨h1, h2⟩ := hst
+    subst h1 h2
+    refine ⟨(h.fwrite ct).1, ?_⟩
+    intro f hf
+    simp only [Option.some.injEq] at hf
+    subst hf
+    exact (h.fwrite ct).2
+
+theorem Blk.fetchRow {a x : Cache} (h : Blk a x) (E : Externals) (r : Row) (read : Bool) :
+    Blk a (x.fetchRow E r read).1 :=
+  h.core' (core_fetchRow x E r read)
+
+theorem Blk.volume {a x : Cache} (h : Blk a x) : Blk a x.volume.1 :=
+  h.core' (core_volume x)
+
+theorem Blk.insRow {a x : Cache} (h : Blk a x) (k : SqlVal) (raw : Bool) (now : Int) (c : Cols) :
+    Blk a (x.insRow k raw now c) :=
+  h.same rfl rfl rfl rfl rfl
+
+theorem Blk.updRow {a x : Cache} (h : Blk a x) (rowid : Nat) (now : Int) (c : Cols) :
+    Blk a (x.updRow rowid now c) :=
+  h.same rfl rfl rfl rfl rfl
+
+theorem Blk.updExp {a x : Cache} (h : Blk a x) (rowid : Nat) (e : Option Int) :
+    Blk a (x.updExp rowid e) :=
+  h.same rfl rfl rfl rfl rfl
+
+theorem Blk.updGet {a x : Cache} (h : Blk a x) (rowid : Nat) (now : Int) :
+    Blk a (x.updGet rowid now) :=
+  h.same rfl rfl rfl rfl rfl
+
+theorem Blk.updIncr {a x : Cache} (h : Blk a x) (rowid : Nat) (now : Int) (v : SqlVal) :
+    Blk a (x.updIncr rowid now v) :=
+  h.same rfl rfl rfl rfl rfl
+
+theorem Blk.delRowQuiet {a x : Cache} (h : Blk a x) (rowid : Nat) : Blk a (x.delRowQuiet rowid) :=
+  h.core _ (core_delRowQuiet x rowid)
+
+theorem Blk.delRow {a x : Cache} (h : Blk a x) (rowid : Nat) : Blk a (x.delRow rowid) :=
+  h.core _ (core_delRow x rowid)
+
+theorem Blk.delIn {a x : Cache} (h : Blk a x) (ids : List Nat) : Blk a (x.delIn ids) :=
+  h.core _ (core_delIn ids x)
+
+theorem Blk.cullW {a x : Cache} (h : Blk a x) (now : Int) : Blk a (x.cullW now).1 :=
+  h.core _ (cullW_core x now).1
+
+/-- inside a block `_remove_committed` only defers the removal -/
+theorem Blk.removeCommitted {a x : Cache} (h : Blk a x) (f : Option Nat) :
+    Blk a (x.removeCommitted f) := by
+  unfold DC.Cache.removeCommitted
+  cases f with
+  | none => exact h
+  | some f =>
+    simp only [h.pos', if_true]
+    exact h.same rfl rfl rfl rfl rfl
+
+/-- inside a block a transaction is just its body (no BEGIN, no COMMIT, no ROLLBACK, no file
+removal); the file written for it is registered in `created` -/
+theorem Blk.transact {a x : Cache} (h : Blk a x) (body : Cache → Body) (fresh : Option Nat)
+    (hfr : ∀ f, fresh = some f → a.nfile ≤ f)
+    (hb : ∀ t, Blk a t → Blk a (body t).s) :
+    Blk a (x.transact body fresh).1 := by
+  unfold DC.Cache.transact
+  simp only [gt_iff_lt, h.pos', if_true]
+  cases fresh with
+  | none =>
+    simp only
+    have h2 := hb _ h
+    split
+    · exact h2.same rfl rfl rfl rfl rfl
+    · exact h2
+  | some f =>
+    simp only
+    have h1 : Blk a { x with created := x.created ++ [f] } := by
+      refine ⟨h.pos, h.depth, h.snap, h.files, h.nfile, ?_⟩
+      intro g hg
+      rcases List.mem_append.1 hg with hg | hg
+      · exact h.created g hg
+      · simp only [List.mem_singleton] at hg
+        subst hg
+        exact .inr (hfr _ rfl)
+    have h2 := hb _ h1
+    split
+    · exact h2.same rfl rfl rfl rfl rfl
+    · exact h2
+
+theorem Blk.transact' {a x : Cache} (h : Blk a x) (body : Cache → Body)
+    (hb : ∀ t, Blk a t → Blk a (body t).s) :
+    Blk a (x.transact body).1 :=
+  h.transact body none (by intro f hf; cases hf) hb
+
+theorem Blk.deletePage {a x : Cache} (h : Blk a x) (page : List Row) (sel : String) :
+    Blk a (x.deletePage page sel) := by
+  rw [deletePage_eq]
+  apply h.transact'
+  intro t ht
+  unfold pageBody
+  simp only
+  split
+  · exact ht.logSql _
+  · exact ((ht.logSql _).delIn _).logSql _
+
+/-- close goals `Blk a (f (g (… t)))` for compositions of statement functions -/
+macro "blk_auto" : tactic => `(tactic| repeat' first
+    | assumption
+    | contradiction
+    | with_reducible apply Blk.logSql
+    | with_reducible apply Blk.log
+    | with_reducible apply Blk.delIn
+    | with_reducible apply Blk.volume
+    | with_reducible apply Blk.cullW
+    | with_reducible apply Blk.insRow
+    | with_reducible apply Blk.updRow
+    | with_reducible apply Blk.updExp
+    | with_reducible apply Blk.updGet
+    | with_reducible apply Blk.updIncr
+    | with_reducible apply Blk.delRow
+    | with_reducible apply Blk.delRowQuiet
+    | with_reducible apply Blk.fetchRow
+    | with_reducible apply Blk.removeCommitted
+    | with_reducible apply Blk.deletePage
+    | with_reducible refine Blk.transact' ?_ _ (fun _ _ => ?_)
+    | split)
+
+/-! ### public methods -/
+
+theorem set_blk {a s : Cache} (h : Blk a s) (E : Externals) (now : Int) (k v : PyVal) (ttl : Option Int)
+    (read : Bool) (tag : SqlVal) : Blk a (s.set E now k v ttl read tag).1 := by
+  unfold DC.Cache.set
+  rcases DC.put E s.cfg.disk k with ⟨dbk, raw⟩
+  simp only
+  split
+  · exact h
+  · rename_i s' c hst
+    obtain ⟨h', hfile⟩ := h.store hst
+    apply h'.transact _ _ hfile
+    intro t ht
+    blk_auto
+
+theorem add_blk {a s : Cache} (h : Blk a s) (E : Externals) (now : Int) (k v : PyVal) (ttl : Option Int)
+    (read : Bool) (tag : SqlVal) : Blk a (s.add E now k v ttl read tag).1 := by
+  unfold DC.Cache.add
+  rcases DC.put E s.cfg.disk k with ⟨dbk, raw⟩
+  simp only
+  split
+  · exact h
+  · rename_i s' c hst
+    obtain ⟨h', hfile⟩ := h.store hst
+    apply h'.transact _ _ hfile
+    intro t ht
+    blk_auto
+
+theorem touch_blk {a s : Cache} (h : Blk a s) (E : Externals) (now : Int) (k : PyVal) (ttl : Option Int) :
+    Blk a (s.touch E now k ttl).1 := by
+  unfold DC.Cache.touch
+  rcases DC.put E s.cfg.disk k with ⟨dbk, raw⟩
+  simp only
+  apply h.transact'
+  intro t ht
+  blk_auto
+
+theorem incr_blk {a s : Cache} (h : Blk a s) (E : Externals) (now : Int) (k : PyVal) (delta : Int)
+    (dflt : Option Int) : Blk a (s.incr E now k delta dflt).1 := by
+  unfold DC.Cache.incr
+  rcases DC.put E s.cfg.disk k with ⟨dbk, raw⟩
+  simp only
+  apply h.transact'
+  intro t ht
+  cases hold : t.selKey dbk raw with
+  | none =>
+    simp only
+    split
+    · blk_auto
+    · split
+      · blk_auto
+      · rename_i s' c hst
+        obtain ⟨h', -⟩ := (ht.logSql "selKey").store hst
+        blk_auto
+  | some r =>
+    simp only
+    split
+    · split
+      · blk_auto
+      · split
+        · blk_auto
+        · rename_i s' c hst
+          obtain ⟨h', -⟩ := (ht.logSql "selKey").store hst
+          blk_auto
+    · blk_auto
+
+theorem get_blk {a s : Cache} (h : Blk a s) (E : Externals) (now : Int) (k : PyVal) (read et tg : Bool) :
+    Blk a (s.get E now k read et tg).1 := by
+  unfold DC.Cache.get
+  rcases DC.put E s.cfg.disk k with ⟨dbk, raw⟩
+  simp only
+  split
+  · blk_auto
+  · apply h.transact'
+    intro t ht
+    blk_auto
+    all_goals (first | with_reducible apply Blk.setMisses | with_reducible apply Blk.setHits)
+    all_goals blk_auto
+
+theorem contains_blk {a s : Cache} (h : Blk a s) (E : Externals) (now : Int) (k : PyVal) :
+    Blk a (s.contains E now k).1 :=
+  h.logSql _
+
+theorem pop_blk {a s : Cache} (h : Blk a s) (E : Externals) (now : Int) (k : PyVal) (et tg : Bool) :
+    Blk a (s.pop E now k et tg).1 := by
+  unfold DC.Cache.pop
+  rcases DC.put E s.cfg.disk k with ⟨dbk, raw⟩
+  simp only
+  blk_auto
+
+theorem delitem_blk {a s : Cache} (h : Blk a s) (E : Externals) (now : Int) (k : PyVal) :
+    Blk a (s.delitem E now k).1 := by
+  unfold DC.Cache.delitem
+  rcases DC.put E s.cfg.disk k with ⟨dbk, raw⟩
+  simp only
+  apply h.transact'
+  intro t ht
+  blk_auto
+
+theorem delete_blk {a s : Cache} (h : Blk a s) (E : Externals) (now : Int) (k : PyVal) :
+    Blk a (s.delete E now k).1 := by
+  rw [delete_fst]
+  exact delitem_blk h E now k
+
+theorem push_blk {a s : Cache} (h : Blk a s) (E : Externals) (now : Int) (v : PyVal) (pfx : Option Str)
+    (back : Bool) (ttl : Option Int) (read : Bool) (tag : SqlVal) :
+    Blk a (s.push E now v pfx back ttl read tag).1 := by
+  unfold DC.Cache.push
+  split
+  · exact h
+  · rename_i s' c hst
+    obtain ⟨h', hfile⟩ := h.store hst
+    apply h'.transact _ _ hfile
+    intro t ht
+    simp only
+    blk_auto
+
+/-! ### loops -/
+
+theorem pullLoop_blk (E : Externals) (now : Int) (pfx : Option Str) (front et tg : Bool) {a : Cache} :
+    ∀ (fuel : Nat) {s : Cache}, Blk a s → Blk a (pullLoop E now pfx front et tg fuel s).1 := by
+  intro fuel
+  induction fuel with
+  | zero => intro s h; exact h
+  | succ n ih =>
+    intro s h
+    simp only [pullLoop]
+    split
+    · blk_auto
+    · split
+      · apply ih; blk_auto
+      · split
+        · apply ih; blk_auto
+        · blk_auto
+
+theorem peekLoop_blk (E : Externals) (now : Int) (pfx : Option Str) (front et tg : Bool) {a : Cache} :
+    ∀ (fuel : Nat) {s : Cache}, Blk a s → Blk a (peekLoop E now pfx front et tg fuel s).1 := by
+  intro fuel
+  induction fuel with
+  | zero => intro s h; exact h
+  | succ n ih =>
+    intro s h
+    simp only [peekLoop]
+    split
+    · blk_auto
+    · split
+      · apply ih; blk_auto
+      · split
+        · apply ih; blk_auto
+        · blk_auto
+
+theorem peekitemLoop_blk (E : Externals) (now : Int) (last et tg : Bool) {a : Cache} :
+    ∀ (fuel : Nat) {s : Cache}, Blk a s → Blk a (peekitemLoop E now last et tg fuel s).1 := by
+  intro fuel
+  induction fuel with
+  | zero => intro s h; exact h
+  | succ n ih =>
+    intro s h
+    simp only [peekitemLoop]
+    split
+    · blk_auto
+    · split
+      · apply ih; blk_auto
+      · split
+        · apply ih; blk_auto
+        · blk_auto
+
+theorem clearLoop_blk {a : Cache} : ∀ (fuel : Nat) {s : Cache} (cur n : Nat), Blk a s →
+    Blk a (clearLoop fuel s cur n).1 := by
+  intro fuel
+  induction fuel with
+  | zero => intro s cur n h; exact h
+  | succ k ih =>
+    intro s cur n h
+    simp only [clearLoop]
+    split
+    · blk_auto
+    · apply ih; blk_auto
+
+theorem evictLoop_blk (tag : SqlVal) {a : Cache} : ∀ (fuel : Nat) {s : Cache} (cur n : Nat), Blk a s →
+    Blk a (evictLoop tag fuel s cur n).1 := by
+  intro fuel
+  induction fuel with
+  | zero => intro s cur n h; exact h
+  | succ k ih =>
+    intro s cur n h
+    simp only [evictLoop]
+    split
+    · blk_auto
+    · apply ih; blk_auto
+
+theorem expireLoop_blk (now : Int) {a : Cache} : ∀ (fuel : Nat) {s : Cache} (lo : Option Int) (n : Nat),
+    Blk a s → Blk a (expireLoop now fuel s lo n).1 := by
+  intro fuel
+  induction fuel with
+  | zero => intro s lo n h; exact h
+  | succ k ih =>
+    intro s lo n h
+    simp only [expireLoop]
+    split
+    · blk_auto
+    · apply ih; blk_auto
+
+theorem cullLoop_blk {a : Cache} : ∀ (fuel : Nat) {s : Cache} (n : Nat), Blk a s →
+    Blk a (cullLoop fuel s n).1 := by
+  intro fuel
+  induction fuel with
+  | zero => intro s n h; exact h
+  | succ k ih =>
+    intro s n h
+    rw [cullLoop_succ]
+    split
+    · blk_auto
+    · split
+      · unfold cullEmpty; blk_auto
+      · apply ih; unfold cullStep; blk_auto
+
+theorem iterLoop_blk (asc : Bool) (bound : Nat) {a : Cache} :
+    ∀ (fuel : Nat) {s : Cache} (cur : Nat) (acc : List Row),
+    Blk a s → Blk a (iterLoop asc bound fuel s cur acc).1 := by
+  intro fuel
+  induction fuel with
+  | zero => intro s cur acc h; exact h
+  | succ k ih =>
+    intro s cur acc h
+    simp only [iterLoop]
+    split
+    · blk_auto
+    · apply ih; blk_auto
+
+theorem iterkeysLoop_blk (rev : Bool) {a : Cache} :
+    ∀ (fuel : Nat) {s : Cache} (cur : Row) (acc : List Row),
+    Blk a s → Blk a (iterkeysLoop rev fuel s cur acc).1 := by
+  intro fuel
+  induction fuel with
+  | zero => intro s cur acc h; exact h
+  | succ k ih =>
+    intro s cur acc h
+    simp only [iterkeysLoop]
+    split
+    · blk_auto
+    · apply ih; blk_auto
+
+theorem cull_blk {a s : Cache} (h : Blk a s) (now : Int) : Blk a (s.cull now).1 := by
+  rw [cull_eq]
+  split
+  · exact expireLoop_blk now _ _ _ h
+  · exact cullLoop_blk _ _ (expireLoop_blk now _ _ _ h)
+
+theorem iter_blk {a s : Cache} (h : Blk a s) (E : Externals) (asc : Bool) : Blk a (s.iter E asc).1 := by
+  unfold DC.Cache.iter
+  simp only
+  split
+  · exact h.logSql _
+  · exact iterLoop_blk asc _ _ _ _ (h.logSql _)
+
+theorem iterkeys_blk {a s : Cache} (h : Blk a s) (E : Externals) (rev : Bool) :
+    Blk a (s.iterkeys E rev).1 := by
+  unfold DC.Cache.iterkeys
+  simp only
+  split
+  · exact h.logSql _
+  · exact iterkeysLoop_blk rev _ _ _ (h.logSql _)
+
+theorem stats_blk {a s : Cache} (h : Blk a s) (enable reset : Bool) : Blk a (s.stats enable reset).1 := by
+  unfold DC.Cache.stats
+  simp only
+  split
+  · exact h.same rfl rfl rfl rfl rfl
+  · exact h.same rfl rfl rfl rfl rfl
+
+/-! ### leaving the outermost block -/
+
+theorem fremoveAll_stats (fs : List (Option Nat)) : ∀ s : Cache,
+    (s.fremoveAll fs).hits = s.hits ∧ (s.fremoveAll fs).misses = s.misses := by
+  induction fs with
+  | nil => intro s; exact ⟨rfl, rfl⟩
+  | cons a t ih =>
+    intro s
+    cases a with
+    | none => exact ih s
+    | some f => exact ih (s.fremove f)
+
+theorem fremoveAll_files (s : Cache) (fs : List (Option Nat)) :
+    (s.fremoveAll fs).files = s.files.filter (fun p => !fs.contains (some p.1)) :=
+  congrArg Core.files (core_fremoveAll fs s)
+
+theorem fremoveAll_snap (s : Cache) (fs : List (Option Nat)) : (s.fremoveAll fs).snap = s.snap :=
+  congrArg Core.snap (core_fremoveAll fs s)
+
+theorem fremoveAll_depth (s : Cache) (fs : List (Option Nat)) : (s.fremoveAll fs).depth = s.depth :=
+  congrArg Core.depth (core_fremoveAll fs s)
+
+theorem mem_fremoveAll {s : Cache} {fs : List (Option Nat)} {p : Nat × Content} (hp : p ∈ s.files)
+    (hn : some p.1 ∉ fs) : p ∈ (s.fremoveAll fs).files := by
+  rw [fremoveAll_files]
+  exact List.mem_filter.2 ⟨hp, by simpa using hn⟩
+
+theorem mem_of_fremoveAll {s : Cache} {fs : List (Option Nat)} {p : Nat × Content}
+    (hp : p ∈ (s.fremoveAll fs).files) : p ∈ s.files := by
+  rw [fremoveAll_files] at hp
+  exact (List.mem_filter.1 hp).1
+
+theorem tend_one (s : Cache) (hd : s.depth = 1) :
+    s.tend = { ({ (s.log .commit) with depth := 0, snap := none }.fremoveAll s.pending) with
+      pending := [], created := [] } := by
+  unfold DC.Cache.tend
+  rw [if_pos (by simp [hd])]
+  rfl
+
+theorem traise_outer (s : Cache) (n : Nat) (p : Snap) (hn : s.depth ≤ n) (hd : 0 < s.depth)
+    (hs : s.snap = some p) :
+    s.traise n = { ({ ((s.restore p).log .rollback) with depth := 0, snap := none }.fremoveAll
+      (s.created.map some)) with pending := [], created := [] } := by
+  unfold DC.Cache.traise
+  rw [if_pos (by simp [hn, hd])]
+  simp only [hs]
+  rfl
+
+theorem traise_inner (s : Cache) (n : Nat) (hn : n < s.depth) :
+    s.traise n = { s with depth := s.depth - n } := by
+  unfold DC.Cache.traise
+  have : ¬ (s.depth ≤ n) := by omega
+  simp [this]
 
 end DC.Cache
